@@ -107,7 +107,22 @@ func VerifHarness_C05_OperatorLaws() {
 func VerifHarness_C05_ElementPairs() {
 	var a, b any
 	want := 2 // 0 false, 1 true, 2 empty
-	switch verifrt.Choose("kind", 3) {
+	switch verifrt.Choose("kind", 5) {
+	case 3: // an instant element against a dateTime element of second precision: the same or another instant
+		sa := int64(verifrt.NondetIntRange("sa", 1704067200, 1704067203))
+		sb := int64(verifrt.NondetIntRange("sb", 1704067200, 1704067203))
+		a = &dtpb.Instant{ValueUs: sa * 1000000, Timezone: []string{"Z", "-05:00"}[verifrt.Choose("a.zone", 2)], Precision: dtpb.Instant_SECOND}
+		b = &dtpb.DateTime{ValueUs: sb * 1000000, Timezone: []string{"Z", "+02:00"}[verifrt.Choose("b.zone", 2)], Precision: dtpb.DateTime_SECOND}
+		want = b2i(sa == sb)
+	case 4: // a date element (read in some default zone) against a day-precision dateTime element (read in another)
+		da, db := verifrt.NondetIntRange("da", 0, 2), verifrt.NondetIntRange("db", 0, 2)
+		offA := []int64{0, 18000, -28800}[verifrt.Choose("a.off", 3)]
+		offB := []int64{0, 18000, -28800}[verifrt.Choose("b.off", 3)]
+		zone := map[int64]string{0: "Z", 18000: "+05:00", -28800: "-08:00"}
+		// local midnight of 2024-01-(1+d) in the element's zone
+		a = &dtpb.Date{ValueUs: (1704067200 + int64(da)*86400 - offA) * 1000000, Timezone: zone[offA], Precision: dtpb.Date_DAY}
+		b = &dtpb.DateTime{ValueUs: (1704067200 + int64(db)*86400 - offB) * 1000000, Timezone: zone[offB], Precision: dtpb.DateTime_DAY}
+		want = b2i(da == db)
 	case 0: // decimal elements: value v written with 1 or 2 decimal places
 		va, vb := verifrt.NondetIntRange("va", -2, 2), verifrt.NondetIntRange("vb", -2, 2)
 		texts := func(v int, two bool) string {
